@@ -4,7 +4,7 @@
 From Coq Require Import List Arith NArith ZArith Bool String.
 From Coq.Strings Require Import Byte.
 From Peppi Require Import Base.Bytes Base.Outcome Gen.Funs Model.Ubjson Model.Start Model.Parse Model.Reader Model.Writer Model.Recorder
-  Proofs.TableFacts Proofs.ReadProof Proofs.Corollaries.
+  Model.Frag Proofs.TableFacts Proofs.ReadProof Proofs.Corollaries Proofs.FragProof.
 Import ListNotations.
 
 (* for every well-formed replay, with or without skip-frames (skip needs a finished replay): the read consumes the
@@ -16,4 +16,33 @@ Theorem C11_hash_covers_file : forall r st (sk h : bool),
             g_hashed g = if h then Some (List.length (emit r)) else None.
 Proof. exact c11_hash_covers_file. Qed.
 
+(* "however they arrive": the stream is delivered by an underlying reader that fragments reads according to ANY
+   schedule (Model/Frag.v: short reads of any sizes, Interrupted retries; read_exact as std implements it; the
+   hashing wrapper feeds the hasher exactly what each read() returned).  For every input on which the flat reader
+   succeeds, the fragmented run returns the same game, leaves the same rest, and the hasher was fed exactly the
+   consumed prefix, whose length is the count the game reports. *)
+Theorem C11_digest_any_fragmentation : forall data sched g rest,
+  no_fault sched ->
+  slp_read {| o_skip := false; o_hash := true |} data = Ok (g, rest) ->
+  let '(res, h') := run_frag (p_slp_read true (List.length data)) (mk_hreader data sched (Some [])) in
+  res = Ok g /\ fs_data (hr_inner h') = rest /\
+  exists used, data = used ++ rest /\ hr_hashed h' = Some used /\ g_hashed g = Some (List.length used).
+Proof. exact slp_read_frag_digest. Qed.
+
+(* two schedules: same result, same remaining data, same hashed bytes -- for any program of exact reads *)
+Theorem C11_schedule_independent : forall (A : Type) (p : prog A) data s1 s2 hashed0,
+  no_fault s1 -> no_fault s2 ->
+  let r1 := run_frag p (mk_hreader data s1 hashed0) in
+  let r2 := run_frag p (mk_hreader data s2 hashed0) in
+  fst r1 = fst r2 /\ fs_data (hr_inner (snd r1)) = fs_data (hr_inner (snd r2)) /\ hr_hashed (snd r1) = hr_hashed (snd r2).
+Proof. exact @schedule_independent. Qed.
+
+(* the program run above IS the reader model *)
+Theorem C11_program_is_reader : forall hash bs0,
+  run_flat (p_slp_read hash (List.length bs0)) bs0 = slp_read {| o_skip := false; o_hash := hash |} bs0.
+Proof. exact run_flat_slp_read. Qed.
+
 Print Assumptions C11_hash_covers_file.
+Print Assumptions C11_digest_any_fragmentation.
+Print Assumptions C11_schedule_independent.
+Print Assumptions C11_program_is_reader.
